@@ -230,6 +230,43 @@ func (p profile) tweak(c *config.Configuration) {
 	node.Compressed(node.Heights{VoteStart: 2, CRCOnlyDPOS: p.crcOnly, RevertToPOWStart: p.revertStart})(c)
 }
 
+// forceReorg: BlockChain.ReorganizeChain on a fully known valid block that is
+// not on the active chain (what the DPoS layer would ask for after seeing a
+// confirm for a block of a side chain).
+func forceReorg(m *c12.Machine) map[string]func(*rapid.T) {
+	return map[string]func(*rapid.T){
+		"force-reorg": func(t *rapid.T) {
+			if m.Tip == nil {
+				t.Skip("dead")
+			}
+			var side []*c12.Blk
+			for _, b := range m.Blocks {
+				if b.Accepted && b.ChainOK && !b.Stranded && !b.IsAncestorOf(m.Tip) && m.N.Chain.BlockExists(&b.Hash) {
+					side = append(side, b)
+				}
+			}
+			if len(side) == 0 {
+				t.Skip("no side-chain block")
+			}
+			// prefer the far ends of side branches
+			b := side[rapid.IntRange(0, len(side)-1).Draw(t, "side")]
+			for rapid.Bool().Draw(t, "descend") {
+				var next *c12.Blk
+				for _, c := range b.Children {
+					if c.Accepted && c.ChainOK && m.N.Chain.BlockExists(&c.Hash) {
+						next = c
+					}
+				}
+				if next == nil {
+					break
+				}
+				b = next
+			}
+			m.ForceReorganize(b)
+		},
+	}
+}
+
 func runCase(t *rapid.T, unit string, invalid bool) {
 	p := drawProfile(t)
 	mb, md := 8, 8
@@ -238,6 +275,9 @@ func runCase(t *rapid.T, unit string, invalid bool) {
 	}
 	cs := &caseState{}
 	cfg := c12.Config{Tweak: p.tweak, Invalid: invalid, Reverts: true, MaxBranch: mb, MaxDepth: md, OnStep: cs.onStep}
+	if unit == "api" {
+		cfg.ExtraActions = forceReorg
+	}
 	m := c12.Start(t, cfg)
 	defer m.Close()
 	m.Extra = map[string]any{"CRCOnlyDPOSHeight": p.crcOnly, "RevertToPOWStartHeight": p.revertStart}
@@ -299,4 +339,10 @@ func tail(a []string, n int) []string {
 		return a[len(a)-n:]
 	}
 	return a
+}
+
+// TestIrreversibleForcedReorg: additionally calls the exported
+// BlockChain.ReorganizeChain(block) on side-chain blocks.
+func TestIrreversibleForcedReorg(t *testing.T) {
+	rapid.Check(t, func(t *rapid.T) { runCase(t, "api", false) })
 }
